@@ -166,6 +166,19 @@ func resolveColumn(v ssa.Value, depth int) (*colInfo, string) {
 			return nil, "captured column variable"
 		case *ssa.IndexAddr:
 			arr, ok := a.X.(*ssa.Alloc)
+			if fv, isFV := a.X.(*ssa.FreeVar); isFV && !ok {
+				// the column array of the enclosing function, captured by a closure
+				if par := fv.Parent().Parent(); par != nil {
+					idx := freeVarIndex(fv.Parent(), fv)
+					for _, pb := range par.Blocks {
+						for _, pin := range pb.Instrs {
+							if mc, isMC := pin.(*ssa.MakeClosure); isMC && mc.Fn == ssa.Value(fv.Parent()) && idx >= 0 && idx < len(mc.Bindings) {
+								arr, ok = mc.Bindings[idx].(*ssa.Alloc)
+							}
+						}
+					}
+				}
+			}
 			if prm, isPrm := a.X.(*ssa.Parameter); isPrm && !ok {
 				// a pointer to the caller's column array
 				if args := paramArgs(prm); len(args) == 1 {
@@ -182,6 +195,17 @@ func resolveColumn(v ssa.Value, depth int) (*colInfo, string) {
 				at, isArr := deref(arr.Type()).Underlying().(*types.Array)
 				n, isR := rangeIndexConst(a.Index)
 				inside := isArr && ((isR && n <= at.Len()) || func() bool { ok, _ := isRangeIndexOver(a.Index, a.X); return ok }())
+				if prm, isPrm := a.Index.(*ssa.Parameter); isPrm && isArr && !inside {
+					// the index is handed in by the callers, each with a constant inside the array
+					if args := paramArgs(prm); len(args) > 0 {
+						inside = true
+						for _, av := range args {
+							if k, isC := constInt(av); !isC || k < 0 || k >= at.Len() {
+								inside = false
+							}
+						}
+					}
+				}
 				if !inside || depth > 2 {
 					return nil, "column array indexed by a non-constant"
 				}
